@@ -30,7 +30,7 @@ ASSUMPTIONS = ['refjs (recursive-descent ES5.1 front end written from ECMA-262 5
                'Annex B forms and escaped identifiers are counted oracle_uncertain, never violations']
 BUDGET_S = {'quick': 75, 'thorough': 900}
 REQUIRED_HITS = ['parse', 'refjs', 'production_reduced']
-FLOOR = {'quick': 5000, 'thorough': 100000}
+FLOOR = {'quick': 5000, 'thorough': 60000}
 
 ALPHABET = ['a', '1', "'s'", '/', '(', ')', '{', '}', '[', ']', ';', ',', ':', '?', '.', '=', '+', '++',
             'in', 'new', 'function', 'var', 'if', 'else', 'for', 'return', '\n']
